@@ -319,9 +319,18 @@ def _predispatch_literals(model: Model, rel: str) -> Set[str]:
     m = model.module(rel)
     for f in m.functions.values():
         for c in own_nodes(f.node):
-            if isinstance(c, ast.Compare) and isinstance(c.left, ast.Name) and c.left.id == "method" and isinstance(c.ops[0], ast.Eq) \
-                    and isinstance(c.comparators[0], ast.Constant) and isinstance(c.comparators[0].value, str):
-                out.add(c.comparators[0].value)
+            if not (isinstance(c, ast.Compare) and len(c.ops) == 1):
+                continue
+            left = c.left
+            while isinstance(left, ast.Call) and isinstance(left.func, ast.Attribute) and left.func.attr in ("lower", "casefold", "strip") and not left.args:
+                left = left.func.value
+            if not (isinstance(left, ast.Name) and left.id == "method"):
+                continue
+            rhs = c.comparators[0]
+            if isinstance(c.ops[0], ast.Eq) and isinstance(rhs, ast.Constant) and isinstance(rhs.value, str):
+                out.add(rhs.value)
+            elif isinstance(c.ops[0], ast.In) and isinstance(rhs, (ast.Tuple, ast.List, ast.Set)):
+                out |= {e.value for e in rhs.elts if isinstance(e, ast.Constant) and isinstance(e.value, str)}
     return out
 
 
